@@ -348,18 +348,29 @@ func (d *drv) rawCase(ds *ld.RDFDataset, kind string, hi int) {
 	}
 }
 
-// selfReference reports a quad whose object is its own subject (a node referring to itself).
+// selfReference reports a node that refers to itself (a quad whose object is its own subject)
+// and states something: a literal/IRI-valued quad with the same subject in the same graph (the
+// self-referencing quad itself when its object is an IRI). Such a statement has no finite path
+// (Properties/C01.v C01_self_reference_rejected); regression oracle for finding D25 (fix b73a54e).
 func selfReference(ds *ld.RDFDataset) string {
+	key := func(n ld.Node) string {
+		switch x := n.(type) {
+		case *ld.IRI:
+			return "I" + x.Value
+		case *ld.BlankNode:
+			return "B" + x.Attribute
+		}
+		return ""
+	}
 	for g, qs := range ds.Graphs {
 		for _, q := range qs {
-			switch s := q.Subject.(type) {
-			case *ld.IRI:
-				if o, ok := q.Object.(*ld.IRI); ok && o.Value == s.Value {
-					return fmt.Sprintf("node %s of graph %s refers to itself", s.Value, g)
-				}
-			case *ld.BlankNode:
-				if o, ok := q.Object.(*ld.BlankNode); ok && o.Attribute == s.Attribute {
-					return fmt.Sprintf("node %s of graph %s refers to itself", s.Attribute, g)
+			sk := key(q.Subject)
+			if sk == "" || key(q.Object) != sk {
+				continue
+			}
+			for _, v := range qs {
+				if _, isBlank := v.Object.(*ld.BlankNode); !isBlank && key(v.Subject) == sk {
+					return fmt.Sprintf("node %s of graph %s refers to itself", sk[1:], g)
 				}
 			}
 		}
@@ -472,6 +483,9 @@ func Run(cfg *common.Config) (*common.Report, error) {
 			fmt.Printf("replay: FAIL [%s] %s\n", f.Class, f.What)
 		}
 		return rep, d.writeShards()
+	}
+	for i, doc := range regressionDocs() {
+		d.docCase(doc, i%len(d.hs))
 	}
 	nValid := cfg.Pick(150, 4000)
 	for i := 0; i < nValid; i++ {
